@@ -74,7 +74,6 @@ func verifMultisetEq(rows []*storage.Row, ref []verifFlagRow, pre string) {
 	}
 }
 
-var verifJoinTypes = []sql.JoinType{sql.INNER_JOIN, sql.LEFT_JOIN, sql.RIGHT_JOIN}
 
 // ON condition forms over the combined row; li/ri are the positions of the two
 // join keys in the combined row, lq/rq their qualified references.
